@@ -1,11 +1,13 @@
 #!/bin/bash
-# usage: confirm_seed.sh <wt dir> -- confirm: demo FAILs with change, suite passes, demo PASSes without change
+# usage: confirm_seed.sh <wt dir> -- confirm from the stored patch alone (worktrees share one git stash, so no stash here):
+# reset the worktree, apply _seed/patch.diff: demo must FAIL and the suite pass; revert it: demo must PASS
 wt=$1
 cd $wt || exit 2
-git diff --quiet -- pyplumio && { echo "no change applied in $wt"; exit 2; }
+git checkout -q -- pyplumio
+git apply _seed/patch.diff || { echo "patch does not apply in $wt"; exit 2; }
 /venv/bin/python _seed/demo.py > /tmp/demo_with.txt 2>&1; a=$?
 t=$(/venv/bin/python -m pytest -q -p no:cacheprovider 2>&1 | tail -1)
-git stash -q -- pyplumio
+git apply -R _seed/patch.diff
 /venv/bin/python _seed/demo.py > /tmp/demo_without.txt 2>&1; b=$?
-git stash pop -q
+git apply _seed/patch.diff
 echo "demo_with_change_rc=$a demo_without_change_rc=$b tests: $t"
